@@ -67,6 +67,8 @@ let run_g () =
   let npaths = next () in
   let xpaths = List.init npaths (fun _ -> next_list ()) in
   let b = Buffer.create 1024 in
+  Buffer.add_string b (Printf.sprintf "wf=%d|prod=%d|acyc=%d|"
+    (if wfb g root then 1 else 0) (if productiveb g then 1 else 0) (if acyclicb g then 1 else 0));
   Buffer.add_string b ("items=" ^ show_res ints (items fuel g root));
   (match generate_paths v fuel g root aempty aempty with
    | Ok (a, (es, st)) when es <> [] || st = Ok () ->
